@@ -166,3 +166,29 @@ class _:
     raises = {}
     modifies = []
     allocates = False
+
+
+@contract("bibtexparser.model.DuplicateFieldKeyBlock.__init__")
+class _:
+    """the duplicate-field wrapper exposes the complete entry (every field occurrence stays in it) and the keys"""
+    sorts = {"self": "ref:DuplicateFieldKeyBlock", "duplicate_keys": "set:str", "entry": "ref:Entry"}
+    ensures = {
+        "C09.dupfield-entry": "same(self._ignore_error_block, entry)",
+        "C09.dupfield-keys": "same(as_ref(self._duplicate_keys, 'set:str'), duplicate_keys)",
+        "C09.dupfield-raw": "same(self._raw, entry._raw) and same(self._start_line_in_file, entry._start_line_in_file)",
+        "C09.dupfield-entry-untouched": "unchanged('Entry._fields') and unchanged('list:ref:Field') and unchanged('Field._key') and unchanged('Field._value') and unchanged('Entry._key')",
+    }
+    raises = {}
+    modifies = ["@self._start_line_in_file", "@self._raw", "@self._parser_metadata", "@self._error", "@self._ignore_error_block", "@self._duplicate_keys"]
+
+
+@contract("bibtexparser.model.DuplicateBlockKeyBlock.__init__")
+class _:
+    sorts = {"self": "ref:DuplicateBlockKeyBlock", "key": "str", "previous_block": "ref:Block", "duplicate_block": "ref:Block",
+             "start_line": "any", "raw": "any"}
+    ensures = {
+        "C09.dupkey-fields": "self._key == key and same(self._previous_block, previous_block) and same(self._ignore_error_block, duplicate_block)",
+        "C09.dupkey-raw": "same(self._raw, raw) and same(self._start_line_in_file, start_line)",
+    }
+    raises = {}
+    modifies = ["@self._start_line_in_file", "@self._raw", "@self._parser_metadata", "@self._error", "@self._ignore_error_block", "@self._key", "@self._previous_block"]
